@@ -7,7 +7,7 @@ CONSTANTS Ord0,        \* path names in lexicographic order
           Menu,        \* sequence of rule sets (each a sequence of rules in sorted order); the first one is the initial set
           Init0,       \* initial workspace contents: sequence of <<path, content>>
           SrcVals,     \* contents a leaf can be edited to
-          UserActs,    \* subset of {"rules","edit","tamper","deltarget","delleaf","delcache","delruler","env","build","clean","crash"}
+          UserActs,    \* subset of {"rules","edit","tamper","deltarget","delleaf","delcache","delruler","env","mv","corrupt","build","clean","crash"}
           Goals,       \* goals offered to build / clean ("" = everything)
           MaxUser,     \* bound on the number of user-level actions
           FreeFrom,    \* invocations started as user action number >= FreeFrom are scheduled freely, earlier ones serially
@@ -45,6 +45,9 @@ UserNext ==
   \/ Can("delcache") /\ \E n \in DOMAIN cache : Scr(<<"delcache", n>>) /\ DelCache(n)
   \/ Can("delruler") /\ \E w \in {"all", "cache", "history", "table"} : Scr(<<"delruler", w>>) /\ DelRuler(w)
   \/ Can("env") /\ \E v \in {"e0", "e1"} : v # env /\ Scr(<<"env", v>>) /\ ChangeEnv(v)
+  \/ Can("mv") /\ Has(ws, "zz") /\ \E q \in AllTargets : Scr(<<"mv", "zz", q>>) /\ Move("zz", q)
+  \/ Can("corrupt") /\ rdir.tab = "ok" /\ Scr(<<"corrupt", "table", "">>) /\ Corrupt("table", "")
+  \/ Can("corrupt") /\ \E rid \in DOMAIN hist : Scr(<<"corrupt", "hist", rid>>) /\ Corrupt("hist", rid)
   \/ Can("build") /\ \E gl \in Goals : Scr(<<"build", gl>>) /\ StartBuild(gl)
   \/ Can("clean") /\ \E gl \in Goals : Scr(<<"clean", gl>>) /\ StartClean(gl)
   \/ Can("crash") /\ Can("build") /\ \E n \in 1..3 : CrashInInit(n)
